@@ -84,7 +84,7 @@ def joinOr (dflt : String) (l : List String) : String :=
   if l.isEmpty then dflt else ",".intercalate l
 
 def showSlot (d : OptDecl) (sl : Slot) : String :=
-  if d.isWildcard then "w" ++ "".intercalate (sl.log.map (fun e => s!"({hex e.1}:{showVal e.2})"))
+  if d.isWildcard then "w" ++ "".intercalate (sl.log.reverse.map (fun e => s!"({hex e.1}:{showVal e.2})"))
   else showVal sl.val
 
 def showResult (cid : String) (decls : List OptDecl) (r : Outcome × St) : String :=
@@ -93,9 +93,9 @@ def showResult (cid : String) (decls : List OptDecl) (r : Outcome × St) : Strin
   | o =>
     let st := r.2
     let ret := match o with | .ok => (if st.errs.isEmpty then "1" else "0") | _ => "-"
-    let errs := joinOr "-" (st.errs.map showErr)
+    let errs := joinOr "-" (st.errs.reverse.map showErr)
     let vals := joinOr "-" (decls.map (fun d => showSlot d (st.slot d.id)))
-    let echo := joinOr "-" (st.echo.map (fun e => match e.2 with
+    let echo := joinOr "-" (st.echo.reverse.map (fun e => match e.2 with
       | some v => s!"{hex e.1}={showVal v}" | none => hex e.1))
     s!"R {cid} {showOutcome o} {ret} | {errs} | {vals} | {echo}"
 
